@@ -108,6 +108,26 @@ CHECKS = {
              "renderer / decoder in tools/props/c10.py, gcc as linker.",
         technique="TLA+ state machine (TLC invariants + enumeration) + spec-to-implementation replay",
         ref="DESIGN.md section 4 C10"),
+    "C11": dict(
+        engine="SwitchCheck",
+        category="model_checking",
+        text="SwitchCheck.tla states the static rule (every arm names a variant of the scrutinee's "
+             "type, none twice, all named or a default) and the dispatch rule (the arm naming the "
+             "current variant runs with the argument bound to its payload, else the default arm "
+             "with the whole value) over sum type shapes (enums of 1..MaxEnum variants with void / "
+             "i32 / u8 / struct payloads, automatic and custom discriminants incl. 0, 200, 255; "
+             "?i32; ?^i32; str!i32; each also behind a distinct) x every arm list up to MaxArms "
+             "over own variants and a foreign one x default x spelling (shorthand, fully "
+             "qualified, mixed). TLC checks that exactly one arm is responsible for every variant "
+             "of an accepted switch and emits verdict + dispatch table. Every switch is one "
+             "function given to the real front end (verdict); accepted ones are executed on every "
+             "run-time variant and the arm letter + payload bytes (default: which variant "
+             "#is_variant reports for the bound value) compared.",
+        note="quick: MaxEnum 3, MaxArms 4 (27 288 switches, 1 074 accepted and run on all their "
+             "variants); thorough: MaxEnum 4, MaxArms 5. Default arm always last and single. "
+             "Trusted: TLC, the renderer in tools/props/c11.py, gcc as linker.",
+        technique="TLA+ static + dispatch rules (TLC enumeration) + spec-to-implementation replay",
+        ref="DESIGN.md section 4 C11"),
     "C12": dict(
         engine="Ty/TyRelLaws",
         category="model_checking",
